@@ -3,8 +3,9 @@ package rules
 import (
 	"fmt"
 	"go/token"
-	"sort"
 	"go/types"
+	"sort"
+	"strings"
 
 	"golang.org/x/tools/go/ssa"
 	"verifcheck/internal/prog"
@@ -403,5 +404,108 @@ func (c *Ctx) NILRET(rule string, entry ...string) []report.Obligation {
 	}
 	sort.Strings(names)
 	out = append(out, report.Obligation{Rule: rule, Key: "inventory", Status: report.Discharged, Why: fmt.Sprintf("functions returning (nil, nil): %v; %d dereferencing uses of their results", names, n)})
+	return out
+}
+
+// ---------------------------------------------------------------------------
+// PANIC-NIL (C01): optional parts of the model are pointers (deploy, build, healthcheck, resources.limits, ...).
+// Wherever code reachable from the entry points dereferences a pointer it loaded from a struct field (a field
+// access x.f.g, a load *x.f, a pointer-receiver method that dereferences), the access is dominated by a test that
+// the same field path is not nil - or the value was just stored there non-nil in the same function.
+// Guards are matched by field path (s.Deploy.Resources.Limits), so testing `limits` and then dereferencing
+// `reservations` is reported.
+// ---------------------------------------------------------------------------
+
+func (c *Ctx) PANICNIL(rule string, entry ...string) []report.Obligation {
+	var out []report.Obligation
+	r, missing := c.Reach(entry...)
+	for _, m := range missing {
+		out = append(out, anchorViolation(rule, m))
+	}
+	n := 0
+	for _, f := range r.Sorted(c.P) {
+		if strings.HasPrefix(c.P.FuncID(f), "types.deriveDeepCopy") {
+			continue // generated: every pointer is tested before it is followed (checked by DC)
+		}
+		// path key of a pointer value loaded from a field
+		keyOf := func(v ssa.Value) string {
+			ld, ok := v.(*ssa.UnOp)
+			if !ok || ld.Op != token.MUL {
+				return ""
+			}
+			fa, ok := ld.X.(*ssa.FieldAddr)
+			if !ok {
+				return ""
+			}
+			if _, isPtr := ld.Type().Underlying().(*types.Pointer); !isPtr {
+				return ""
+			}
+			_ = fa
+			return addrKey(ld.X, 5)
+		}
+		stored := map[string]bool{} // field paths assigned a fresh non-nil value in this function
+		for _, b := range f.Blocks {
+			for _, in := range b.Instrs {
+				if st, ok := in.(*ssa.Store); ok {
+					if k := addrKey(st.Addr, 5); k != "" {
+						switch st.Val.(type) {
+						case *ssa.Alloc, *ssa.MakeInterface:
+							stored[k] = true
+						}
+					}
+				}
+			}
+		}
+		for _, b := range f.Blocks {
+			for _, in := range b.Instrs {
+				var base ssa.Value
+				switch x := in.(type) {
+				case *ssa.FieldAddr:
+					base = x.X
+				case *ssa.UnOp:
+					if x.Op == token.MUL {
+						if _, isPtrToStruct := x.X.Type().Underlying().(*types.Pointer); isPtrToStruct {
+							if _, isFA := x.X.(*ssa.FieldAddr); !isFA {
+								base = x.X
+							}
+						}
+					}
+				}
+				if base == nil {
+					continue
+				}
+				key := keyOf(base)
+				if key == "" {
+					continue
+				}
+				pt := base.Type().Underlying().(*types.Pointer)
+				if _, isStruct := pt.Elem().Underlying().(*types.Struct); !isStruct {
+					continue
+				}
+				n++
+				guarded := stored[key] || factHolds(b, func(cond ssa.Value, val bool) bool {
+					bo, ok := cond.(*ssa.BinOp)
+					if !ok || (bo.Op != token.NEQ && bo.Op != token.EQL) {
+						return false
+					}
+					if (bo.Op == token.NEQ) != val {
+						return false
+					}
+					for _, side := range [][2]ssa.Value{{bo.X, bo.Y}, {bo.Y, bo.X}} {
+						if prog.IsNilConst(side[1]) && (side[0] == base || keyOf(side[0]) == key) {
+							return true
+						}
+					}
+					return false
+				})
+				if guarded {
+					out = append(out, ok(rule, c.P.FuncID(f)+" :: "+c.P.KeyTerm(base, 4), c.P.InstrPos(in), "dominated by a non-nil test of the same field path"))
+				} else {
+					out = append(out, bad(rule, c.P.FuncID(f)+" :: "+c.P.KeyTerm(base, 4), c.P.InstrPos(in), "an optional part of the model is dereferenced without a dominating test that this very field path is not nil: a model that omits it panics"))
+				}
+			}
+		}
+	}
+	c.Stats[rule+".sites"] = n
 	return out
 }
